@@ -8,3 +8,4 @@ import Verif.Properties.C06
 #print axioms C06.only_definitions_shrink
 #print axioms C06.pipeline_removeUnused
 #print axioms C06.phases_never_create_shared_sections
+#print axioms C06.pipeline_removeUnused_multi
